@@ -86,9 +86,25 @@ class Recorder:
         return build
 
     # custom flavour -------------------------------------------------------------------------
-    def custom_builder(self, j, shape, tuple_result):
+    def custom_builder(self, j, shape, tuple_result, use_library=False):
+        import gcmpy
+        lib = {"clique": gcmpy.clique_motif, "cycle": gcmpy.cycle_motif, "diamond": gcmpy.diamond_motif}
+
         def build(vertices):
             args = tuple(vertices)
+            if use_library and shape in lib and not (shape == "cycle" and len(args) < 3):
+                # the library's own motif function as the user's build callback (what the documentation suggests)
+                es = sut(f"{shape}_motif{args}", lib[shape], list(vertices))
+                es_norm = [tuple(e) for e in es]
+                self.library_calls += 1
+                try:
+                    ok = Counter(upair(e) for e in es_norm) == Counter(upair(e) for e in shape_edges(shape, args))
+                except Exception:
+                    ok = False
+                if not ok:
+                    self.alarms.append({"motif_function": shape, "args": args, "returned": repr(es)[:300]})
+                self.calls.append((j, args, es_norm, "list"))
+                return es
             if shape == "bare":
                 self.calls.append((j, args, [(args[0], args[1])], "bare"))
                 return (args[0], args[1])
@@ -153,7 +169,8 @@ def make_custom_config(rng, force=None):
             sizes.append(s)
         indices.append(idx)
     return {"flavour": "custom", "motifs": [[list(o), s, n] for o, s, n in motifs], "sizes": sizes, "indices": indices,
-            "path": rng.choice(["direct", "main-enum", "main-str", "factory"]), "tuple_result": rng.random() < 0.6}
+            "path": rng.choice(["direct", "main-enum", "main-str", "factory"]), "tuple_result": rng.random() < 0.6,
+            "use_library": rng.random() < 0.5}
 
 
 def columns_of(cfg):
@@ -221,7 +238,7 @@ def build_algorithm(cfg, rec):
         namers = []
         builders = []
         for j, (orbits, shape, style) in enumerate(cfg["motifs"]):
-            builders.append(rec.custom_builder(j, shape, cfg["tuple_result"]))
+            builders.append(rec.custom_builder(j, shape, cfg["tuple_result"], use_library=cfg.get("use_library", False)))
             namers.append(rec.custom_namer(j, shape, style, sum(orbits), cfg["tuple_result"]))
         params[G.BUILD_FUNCTIONS] = builders
         params[G.EDGE_NAMES] = namers
@@ -345,6 +362,8 @@ def expected_names(cfg, rec, j, nrows):
 def oracle_columns(res, cfg, jds_before, rec, out, ctx):
     """C02: the three columns stay parallel; id groups == callback results; names as prescribed."""
     N = len(jds_before)
+    if rec.alarms:
+        res.violate("library-motif-generator-returned-wrong-edges", first=rec.alarms[0], ctx=ctx); return False
     calls = [c for c in rec.calls if c[2]]          # instances that produced at least one edge
     for c in calls:
         res.count("shape_" + ("bare" if c[3] == "bare" else str(min(len(c[2]), 3)) + ("+" if len(c[2]) >= 3 else "")))
